@@ -29,6 +29,9 @@ def main():
         elif prop in ("C06", "C16", "C09", "C10", "C11"):
             from . import check_derived
             rc = check_derived.run(prop, a.tier, seed)
+        elif prop == "C18":
+            from . import check_c18
+            rc = check_c18.run(prop, a.tier, seed)
         else:
             print("no check for %s" % prop)
             rc = 2
